@@ -24,10 +24,20 @@ type vpTransport struct {
 	out    [][]byte
 	closed bool
 	nread  int
+	gen    func(i int) []byte // lazy script: packet i is created when it is read
+	ngen   int
 }
 
 func (t *vpTransport) ReadPacket() (int, []byte, error) {
 	t.nread++
+	if t.gen != nil {
+		if t.pos >= t.ngen {
+			return 0, []byte{0, 0}, io.EOF
+		}
+		p := t.gen(t.pos)
+		t.pos++
+		return len(p), p, nil
+	}
 	if t.pos >= len(t.in) {
 		return 0, []byte{0, 0}, io.EOF
 	}
@@ -56,6 +66,7 @@ type vpConn struct {
 	closed   bool
 	nclose   int
 	readsAfterClose int
+	block    bool // natively: Read blocks when the script is exhausted (a quiet backend)
 }
 
 var vpErrClosed = errors.New("vpConn: use of closed connection")
@@ -67,6 +78,9 @@ func (c *vpConn) Read(b []byte) (int, error) {
 		return 0, vpErrClosed
 	}
 	if c.rpos >= len(c.reads) {
+		if c.block && !vpSymbolic() {
+			select {} // quiet backend: the relay goroutine just waits
+		}
 		return 0, vpErrEOF
 	}
 	n := copy(b, c.reads[c.rpos])
